@@ -58,7 +58,8 @@ TEXT = u'''Feature: F
       | a | b | t |
 '''
 SCHEMAS = [u"{name} -- @{row.id} {examples.name}", u"{name} [{examples.index}/{row.index}]", u"{name}"]
-A_VALUES = [u"", u"1", u"x y", u"ü€", u"b", u"a|b", u"<zz>", u" pad ", u"<b>", u"<t>", u"a", u">x<"]
+A_VALUES = [u"", u"1", u"x y", u"ü€", u"b", u"a|b", u"<zz>", u" pad ", u"<b>", u"<t>", u"a", u">x<",
+            u"C:\\temp\\new", u"^\\d+$ \\1"]        # backslashes are ordinary characters of a cell
 B_VALUES = [u"2", u"", u"a", u"<a>"]
 T_VALUES = [u"x", u"y1"]
 ROWS = [(a, b, t) for a in A_VALUES for b in B_VALUES for t in T_VALUES]
@@ -161,7 +162,12 @@ def h_expand(sx):
     vals = {"a": row[0], "b": row[1], "t": row[2]}
     table.rows[ri].cells[:] = [vals[h] for h in hd]
     hostile = lift_call(lambda r: any(("<%s>" % c) in v for v in r for c in ("a", "b", "t")), (row,), {})
-    scenarios = outline.scenarios
+    try:
+        scenarios = outline.scenarios
+    except Exception as e:      # noqa - whatever the cells contain, the expansion itself never fails
+        err = "%s: %s" % (type(e).__name__, e)
+        sx.check(False, "C06.expansion-succeeds", detail=lambda m: {"row": sx.eval(row, m) if m is not None else row, "position": [bi, ri], "error": err})
+        return "expansion failed"
     # expected list: block-then-row order
     exp = []
     k = 0
